@@ -4,6 +4,7 @@ import OsacaVerif.Driver.C01
 import OsacaVerif.Driver.DGraph
 import OsacaVerif.Driver.C18
 import OsacaVerif.Driver.C17
+import OsacaVerif.Driver.C20
 open OsacaVerif OsacaVerif.Proto
 
 /-- one handler per property module; the first that recognises the op answers -/
@@ -12,7 +13,8 @@ def handlers : List (Req → Option String) := [
   Driver.C01.handle,
   Driver.DGraph.handle,
   Driver.C18.handle,
-  Driver.C17.handle
+  Driver.C17.handle,
+  Driver.C20.handle
 ]
 
 def dispatch (r : Req) : String :=
